@@ -256,6 +256,7 @@ func (self *TripHistory) RemoveFlight(f *Flight) error {
 
 	// Copy older entries up one, thus overwriting the fight to be removed
 	copy(self.entries[i:], self.entries[i+1:])
+	self.entries[MaxFlights-1] = Flight{}
 
 	// Set oldestAdded if necessary to speed up updating
 	if i >= int(self.oldestChange)  {
